@@ -8,6 +8,17 @@ package cert
 //@ spec fun trimDots(s string) string decreases len(s) = (len(s) > 0 && s[len(s)-1] == '.') ? trimDots(s[:len(s)-1]) : s
 //@ spec fun reqName(h *tls.ClientHelloInfo) string = trimDots(toLower(h.ServerName))
 //@
+//@ // wildcard candidate i for a name: its first i+1 labels replaced by "*" (a.b.com -> *.b.com, *.*.com, *.*.*)
+//@ spec fun wildLabel(name string, i int, j int) string = j <= i ? "*" : splitLabel(name, ".", j)
+//@ spec fun wildJoin(name string, i int, k int) string decreases k = k <= 0 ? "" : (k == 1 ? wildLabel(name, i, 0) : wildJoin(name, i, k-1) + "." + wildLabel(name, i, k-1))
+//@ spec fun wildCand(name string, i int) string = wildJoin(name, i, nLabels(name, "."))
+//@
+//@ func lemmaWildJoin
+//@   props C11
+//@   requires 0 <= k && k <= len(labels) && forall j int :: 0 <= j && j < k ==> labels[j] == wildLabel(name, i, j)
+//@   assigns nothing
+//@   ensures joinSpec(labels, ".", k) == wildJoin(name, i, k)
+//@
 //@ func getCertificate
 //@   props C11
 //@   requires clientHello != nil && ErrNoCertsStored != nil
@@ -24,6 +35,16 @@ package cert
 //@   ensures len(cs.Certificates) > 0 && !strictMatch ==> cert != nil
 //@   loop 1 invariant len(name) <= len(toLower(clientHello.ServerName)) && trimDots(name) == reqName(clientHello)
 //@   loop 1 decreases len(name)
+//@   // without an exact match the wildcard candidates of the requested name are tried from the most specific on
+//@   // (*.b.com before *.*.com ...): the first one that is indexed wins, and none of the earlier ones is indexed
+//@   ensures cert != nil && !hasKey(cs.NameToCertificate, reqName(clientHello)) && (strictMatch || (len(cs.Certificates) > 1 && cs.NameToCertificate != nil)) && cert != addrOfElem(cs.Certificates, 0) ==> exists i int :: 0 <= i && i < nLabels(reqName(clientHello), ".") && hasKey(cs.NameToCertificate, wildCand(reqName(clientHello), i)) && cert == cs.NameToCertificate[wildCand(reqName(clientHello), i)] && forall i0 int :: 0 <= i0 && i0 < i ==> !hasKey(cs.NameToCertificate, wildCand(reqName(clientHello), i0))
+//@   loop 2 invariant len(labels) == nLabels(name, ".") && name == reqName(clientHello) && !hasKey(cs.NameToCertificate, name)
+//@   loop 2 invariant forall j int :: 0 <= j && j <= rangeindex ==> labels[j] == "*"
+//@   loop 2 invariant forall j int :: rangeindex < j && j < len(labels) ==> labels[j] == splitLabel(name, ".", j)
+//@   loop 2 invariant forall i0 int :: 0 <= i0 && i0 <= rangeindex ==> !hasKey(cs.NameToCertificate, wildCand(name, i0))
+//@   at "candidate := strings.Join(labels, \".\")" assert forall j int :: 0 <= j && j < len(labels) ==> labels[j] == wildLabel(name, i, j)
+//@   at "candidate := strings.Join(labels, \".\")" apply lemmaWildJoin(labels, name, i, len(labels))
+//@   at "candidate := strings.Join(labels, \".\")" assert candidate == wildCand(name, i)
 //@
 //@ func (*certstore).BuildNameToCertificate
 //@   props C11
